@@ -64,6 +64,8 @@ type mcSite struct {
 	do      func(id string) (int, error) // performs one request, returns the status code
 }
 
+var mcBlockingSeen atomic.Int64
+
 func newMcSite(m *mon) *mcSite { return &mcSite{m: m, reqs: map[string]*mcReq{}} }
 
 func (s *mcSite) add(id string, q *mcReq) {
@@ -264,6 +266,12 @@ func (s *mcSite) probe(n int, phase string) {
 			return
 		}
 	}
+	// a middleware that blocks beyond the cap instead of refusing is within the statement; once
+	// that was seen a few times in this process the extra request is no longer sat out
+	if mcBlockingSeen.Load() >= 3 {
+		m.c.Obs(m.prim+"_probe_extra_request_skipped_after_blocking_was_seen", 1)
+		return
+	}
 	xq := &mcReq{who: "probe-extra", it: mcIter{Status: 200}}
 	s.add("probe-extra", xq)
 	type answer struct {
@@ -288,6 +296,7 @@ func (s *mcSite) probe(n int, phase string) {
 		// "refused or blocked": a request that is neither answered nor inside the handler is blocked
 		if xq.entered.Load() == 0 {
 			m.c.Obs(m.prim+"_probe_extra_request_blocked_not_refused", 1)
+			mcBlockingSeen.Add(1)
 		} else {
 			m.c.Inconclusive(m.prim + " probe: the extra request entered the handler but was not answered")
 		}
